@@ -19,6 +19,18 @@ E3 (non-initial counter states).  Every full-alphabet program with a block and <
     values and cross the 9/10 boundary inside the program's blocks; thorough adds k = 96..102 (ids 97..103, the
     99/100 boundary) for programs of <= 4 lines.  Expected result = the prefix's own nodes + the program's
     reference result.
+Further families on the same generator and reference (all exhaustive within their bound):
+  forms   every full-alphabet program with a block and <= 4 lines (thorough 5) behind `c int = 5`, its literal
+          conditions rewritten as ("...") expressions: a true and a false instance of ==, !=, <, >, <=, >= and
+          of && / || / ~ combinations ending in each of <=, >= (14 forms, G.COND_FORMS).
+  chain   start from a non-initial *environment*: `base int = 7` is parsed to env1, then every pair (A, B) of static
+          programs with a block (<= 3 lines each; thorough B <= 4) is parsed by two parsers DIP(env1) from the same
+          env1.  Each result must be the document's reference result on top of env1 (a block left open at the end
+          of A does not exist for B) and env1.data() must be unchanged.
+  source  every static host document (<= 4 lines, thorough 5) containing `$source s = <file>` + `{s?*}` at any
+          position (root, inside selected/unselected clauses, nested, in groups) x every remote document (<= 3
+          lines, blocks included, at least one parameter): the remote file is a document of its own, so the import
+          delivers exactly its reference result.  Files live in /dev/shm/dip-B-<pid>, removed after each case.
 The two references are written independently (AST interpreter / indentation automaton); every E2 program is also
 read by the automaton and a disagreement between the two is a harness error.
 
@@ -34,10 +46,14 @@ Not demanded (left out of the alphabets / not compared):
     (subjects of C14/C17);
   * compact clause names (`group.@case`), tabs, indentation widths other than two blanks (C13).
 """
+import os
 import re
 import json
+import shutil
 import hashlib
 import itertools
+
+import functools
 
 from ..common import Shard, failure, outcome, HarnessError
 from ..refmodels import dip_gen_b as G
@@ -47,7 +63,9 @@ LEVEL = "model_checking"
 RULE = ("E2: one case = one distinct AST (distinct ASTs render to distinct texts; blocks directly followed by a "
         "block always carry @end so no text has two readings) x group-name order (only when >= 2 groups); "
         "non-trivial = the program has a block and at least one definition/modification/property inside or after "
-        "it. E3: one case = (AST with a block, prefix offset k); same non-triviality rule. E1: one case = one flat line sequence; executed iff every proper prefix was accepted by library and "
+        "it. E3: one case = (AST with a block, prefix offset k); same non-triviality rule. forms: (AST with a literal "
+        "condition, operator form). chain: (A, B) pair of ASTs with blocks. source: (host AST with one $source+import "
+        "item, remote AST), non-trivial if either has a block. E1: one case = one flat line sequence; executed iff every proper prefix was accepted by library and "
         "reference; non-trivial = contains a clause keyword and at least two lines")
 ASSUMPTIONS = [
     "the reference interprets the generator's AST by the statement (first true @case, else @else; effect iff all "
@@ -72,6 +90,15 @@ BOUNDS = dict(quick=dict(full=5, static=6, d=5, off=((4, tuple(range(1, 14))),))
 # (num_cases, num_branches) then start from non-initial values and cross the 9/10 and 99/100 digit boundaries
 # inside the program's blocks
 TARGET = dict(quick=3000, thorough=12000)   # programs per E2 shard (approximate)
+# further families (max lines): forms = literal conditions rewritten with every comparison operator; chain = (first
+# document, second document) both parsed from one already parsed environment; host/remote = `$source` + import
+# inside clauses x remote documents with blocks
+FAMILIES = dict(quick=dict(forms=4, chain_a=3, chain_b=3, host=4, remote=3),
+                thorough=dict(forms=5, chain_a=3, chain_b=4, host=5, remote=3))
+
+
+def _scratch():
+    return "/dev/shm/dip-B-%d" % os.getpid()      # one directory per worker process
 
 
 # ------------------------------------------------------------------------------------------ running the library
@@ -270,6 +297,225 @@ def _run_e3(desc, sh, tier_off):
             sh.sample(dict(text=G.text_of(G.counter_prefix(ks[-1])[0] + tuple(w.lines)), offset=ks[-1]))
 
 
+# ------------------------------------------------------------------------------------------ condition forms
+def _check_form(prog, form, sh=None):
+    """the program behind `c int = 5`, its literal conditions written with the operators of COND_FORMS[form]"""
+    w = G.Walk(prog, "asc", cform=form)
+    if "comparison-condition" not in w.feat:
+        raise G.Invalid("no literal condition")
+    if not w.cross_check():
+        raise HarnessError("reference readings disagree on %r" % (prog,))
+    text = G.text_of((G.COND_NODE[0],) + tuple(w.lines))
+    got = _run_tree(text)
+    exp = (dict(G.COND_NODE[1], **w.data), sorted(w.tagged))
+    if sh is not None:
+        sh.count("form:" + ("ok" if got[0] == "ok" else "err:" + got[1]))
+    if got[0] == "ok" and (got[1][0], got[1][1]) == exp:
+        return w, None
+    tags = sorted(G.shape_features(prog) | w.feat | {"condition-form=" + form})
+    rec = failure("tree-form", dict(kind="form", prog=prog, form=form, text=text),
+                  dict(data=exp[0], tagged=exp[1]),
+                  dict(data=got[1][0], tagged=got[1][1]) if got[0] == "ok" else list(got),
+                  tags=tags, behaviour=_behaviour_tree(exp, got, w.effective_values | {5}))
+    return w, rec
+
+
+def _run_forms(desc, sh):
+    _, n, header, j, J = desc
+    for prog in itertools.islice(G.programs_under(n, BD, G.FULL, header), j, None, J):
+        try:
+            w = G.Walk(prog)
+        except G.Invalid:
+            continue
+        if not w.nblocks:
+            continue
+        for form in G.COND_FORMS:
+            try:
+                w, rec = _check_form(prog, form, sh)
+            except G.Invalid:
+                break
+            _cheap_isolation()
+            sh.evaluations += 1
+            if w.probe_in_or_after_block:
+                sh.nontrivial += 1
+            if rec:
+                sh.fail(rec)
+            sh.add_extra("form_runs_" + form, 1)
+
+
+# ------------------------------------------------------------------------------------------ chained parses
+BASE = ("base int = 7", {"base": 7})
+
+
+def _parse_on(env, text, name):
+    # documented reuse of a parsed environment: DIP(env); an explicit parser name keeps the source names unique
+    with _DIP(env, name=name, source=("verif", 1)) as p:
+        p.add_string(text)
+        return p.parse()
+
+
+def _plain(data):
+    return {k: (bool(v) if type(v).__name__ in ("bool", "bool_") else int(v) if hasattr(v, "__int__") else repr(v))
+            for k, v in data.items()}
+
+
+def _check_chain(pa, pb, sh=None):
+    """P1 -> env1; DIP(env1) parses A; DIP(env1) parses B.  Both results are the reference result of the document
+    on top of env1 (documents are independent: a block left open at the end of A does not exist for B), and env1
+    itself is unchanged."""
+    wa, wb = G.Walk(pa), G.Walk(pb)
+    ta, tb = G.text_of(wa.lines), G.text_of(wb.lines)
+
+    def go():
+        env1 = _parse(BASE[0])
+        ra = _plain(_parse_on(env1, ta, "pa").data())
+        rb = _plain(_parse_on(env1, tb, "pb").data())
+        return ra, rb, _plain(env1.data())
+    got = outcome(go)
+    exp = (dict(BASE[1], **wa.data), dict(BASE[1], **wb.data), dict(BASE[1]))
+    if sh is not None:
+        sh.count("chain:" + ("ok" if got[0] == "ok" else "err:" + got[1]))
+    if got[0] == "ok" and tuple(got[1]) == exp:
+        return None
+    if got[0] == "err":
+        beh = _behaviour_tree(None, got)
+    else:
+        beh = "+".join(sorted({"first-document:" + _behaviour_tree((exp[0], []), ("ok", (got[1][0], [])), wa.effective_values)
+                               if got[1][0] != exp[0] else "",
+                               "second-document:" + _behaviour_tree((exp[1], []), ("ok", (got[1][1], [])), wb.effective_values)
+                               if got[1][1] != exp[1] else "",
+                               "base-environment-changed" if got[1][2] != exp[2] else ""} - {""}))
+    tags = {"chained-parse"}
+    if G._last_line_block_chain(pa):
+        tags.add("first-document-ends-in-open-block")
+    if pb and pb[0][0] == "b":
+        tags.add("second-document-starts-with-block")
+    return failure("chain", dict(kind="chain", a=pa, b=pb, text_a=ta, text_b=tb),
+                   dict(first=exp[0], second=exp[1], base=exp[2]),
+                   dict(first=got[1][0], second=got[1][1], base=got[1][2]) if got[0] == "ok" else list(got),
+                   tags=sorted(tags), behaviour=beh)
+
+
+@functools.lru_cache(maxsize=None)
+def _block_programs(nmax, A):
+    out = []
+    for n in range(1, nmax + 1):
+        for prog in G.programs(n, BD, A):
+            if G.Walk(prog).nblocks:
+                out.append(prog)
+    return tuple(out)
+
+
+def _run_chain(desc, sh):
+    _, tier, j, J = desc
+    f = FAMILIES[tier]
+    firsts = _block_programs(f["chain_a"], G.STATIC)
+    seconds = _block_programs(f["chain_b"], G.STATIC)
+    for i, pa in enumerate(firsts):
+        if i % J != j:
+            continue
+        for pb in seconds:
+            rec = _check_chain(pa, pb, sh)
+            _cheap_isolation()
+            sh.evaluations += 1
+            sh.nontrivial += 1
+            if rec:
+                sh.fail(rec)
+            sh.add_extra("chain_pairs", 1)
+            if G._last_line_block_chain(pa) and pb[0][0] == "b":
+                sh.add_extra("chain_pairs_open_block_then_block", 1)
+
+
+# ------------------------------------------------------------------------------------------ remote sources
+def _count_sources(seq):
+    return sum(1 if it[0] == "s" else _count_sources(it[1]) if it[0] == "g" else
+               sum(_count_sources(b) for _, b in it[1]) if it[0] == "b" else 0 for it in seq)
+
+
+@functools.lru_cache(maxsize=None)
+def _hosts(nmax):
+    return tuple(p for n in range(1, nmax + 1) for p in G.programs(n, BD, G.HOST) if _count_sources(p) == 1)
+
+
+@functools.lru_cache(maxsize=None)
+def _remotes(nmax):
+    out = []
+    for n in range(1, nmax + 1):
+        for p in G.programs(n, BD, G.REMOTE):
+            w = G.Walk(p, px="r")
+            if w.data:                     # an import that selects nothing is a subject of C17
+                out.append(p)
+    return tuple(out)
+
+
+def _check_source(host, remote, sh=None):
+    """host document with `$source s = <file>` + `{s?*}` at some position, remote file = another small document"""
+    wr = G.Walk(remote, px="r")
+    path = os.path.join(_scratch(), "r.dip")
+    wh = G.Walk(host, remote=wr, srcfile=path)
+    if not wh.cross_check():
+        raise HarnessError("reference readings disagree on host %r" % (host,))
+    text = G.text_of(wh.lines)
+    os.makedirs(_scratch(), exist_ok=True)
+    with open(path, "w") as f:
+        f.write(G.text_of(wr.lines) + "\n")
+    try:
+        got = _run_tree(text)
+    finally:
+        os.remove(path)
+    exp = (wh.data, [])
+    if sh is not None:
+        sh.count("source:" + ("ok" if got[0] == "ok" else "err:" + got[1]))
+    if got[0] == "ok" and (got[1][0], got[1][1]) == exp:
+        return wh, wr, None
+    tags = G.shape_features(host) | wh.feat | {"remote:" + t for t in G.shape_features(remote)}
+    if remote[0][0] == "b":
+        tags.add("remote-starts-with-block")
+    if wh.source_in_effect:
+        tags.add("source-in-selected-clause" if wh.nblocks else "source-at-root")
+    rec = failure("source", dict(kind="source", host=host, remote=remote, text=text, remote_text=G.text_of(wr.lines)),
+                  dict(data=exp[0], tagged=exp[1]),
+                  dict(data=got[1][0], tagged=got[1][1]) if got[0] == "ok" else list(got),
+                  tags=sorted(tags), behaviour=_behaviour_tree(exp, got, wh.effective_values))
+    return wh, wr, rec
+
+
+def _run_source(desc, sh):
+    _, tier, j, J = desc
+    f = FAMILIES[tier]
+    try:
+        for i, host in enumerate(_hosts(f["host"])):
+            if i % J != j:
+                continue
+            for remote in _remotes(f["remote"]):
+                wh, wr, rec = _check_source(host, remote, sh)
+                _cheap_isolation()
+                sh.evaluations += 1
+                if wh.nblocks or wr.nblocks:
+                    sh.nontrivial += 1
+                if rec:
+                    sh.fail(rec)
+                sh.add_extra("source_pairs", 1)
+                if wh.source_in_effect and wh.nblocks and remote[0][0] == "b":
+                    sh.add_extra("source_pairs_in_clause_remote_starts_with_block", 1)
+    finally:
+        shutil.rmtree(_scratch(), ignore_errors=True)
+
+
+def _family_shards(tier):
+    f = FAMILIES[tier]
+    shards = []
+    for n in range(1, f["forms"] + 1):
+        for header, size in G.headers(n, BD, G.FULL):
+            J = max(1, -(-(size * len(G.COND_FORMS)) // (6 * TARGET[tier])))
+            for j in range(J):
+                shards.append(("forms", n, header, j, J))
+    J = 48 if tier == "quick" else 160
+    shards += [("chain", tier, j, J) for j in range(J)]
+    shards += [("source", tier, j, J) for j in range(J)]
+    return shards
+
+
 def _e2_shards(tier):
     b = BOUNDS[tier]
     shards = []
@@ -413,7 +659,7 @@ def plan(tier, seed):
     e3 = [d + (tier,) for d in _e3_shards(tier)]
     # keep the small E2 programs first (minimal counterexamples), then interleave by cost
     small = [d for d in shards if d[1] <= 4]
-    shards = small + e3 + [d for d in shards if d[1] > 4]
+    shards = small + e3 + _family_shards(tier) + [d for d in shards if d[1] > 4]
     shards.append(("e1u", None, None, b["d"]))
     for a in G.FLAT_ALPHABET:
         for c in G.FLAT_ALPHABET:
@@ -427,6 +673,12 @@ def run_shard(desc):
         _run_e2(desc, sh)
     elif desc[0] == "e3":
         _run_e3(desc[:-1], sh, BOUNDS[desc[-1]]["off"])
+    elif desc[0] == "forms":
+        _run_forms(desc, sh)
+    elif desc[0] == "chain":
+        _run_chain(desc, sh)
+    elif desc[0] == "source":
+        _run_source(desc, sh)
     else:
         _run_e1_unpruned(desc, sh)
     from .. import isolation
@@ -442,6 +694,15 @@ def replay(rec):
         _, bad = _check_tree(_tup(c["prog"]), c["gorder"], root=c.get("root", "int"))
     elif c["kind"] == "offset":
         _, bad = _check_offset(_tup(c["prog"]), c["k"])
+    elif c["kind"] == "form":
+        _, bad = _check_form(_tup(c["prog"]), c["form"])
+    elif c["kind"] == "chain":
+        bad = _check_chain(_tup(c["a"]), _tup(c["b"]))
+    elif c["kind"] == "source":
+        try:
+            _, _, bad = _check_source(_tup(c["host"]), _tup(c["remote"]))
+        finally:
+            shutil.rmtree(_scratch(), ignore_errors=True)
     else:
         _, _, bad = _check_flat(tuple((k, i) for k, i in c["seq"]))
     _cheap_isolation()
@@ -458,6 +719,13 @@ def finish(total, tier, seed):
     missing = [k for k in need if not h.get(k)]
     if missing:
         raise HarnessError("vacuous run, outcome classes never seen: %s" % missing)
+    for key in ["form_runs_" + f for f in G.COND_FORMS] + ["chain_pairs_open_block_then_block",
+                                                             "source_pairs_in_clause_remote_starts_with_block"]:
+        if not total.extra.get(key):
+            raise HarnessError("vacuous run: family counter %s is zero" % key)
+    for key in ("form:ok", "chain:ok", "source:ok"):
+        if not h.get(key):
+            raise HarnessError("vacuous run: outcome class %s never seen" % key)
     for feat in ("unit-directive", "property-line-after-block", "bare-reference-condition"):
         if not total.extra.get("e2_programs_with_" + feat):
             raise HarnessError("vacuous run: no program with feature %s" % feat)
@@ -495,5 +763,8 @@ MANIFEST = dict(
          "DIP text and are cross-checked against each other on every program). Not covered: @case after @else, "
          "misplaced keywords inside unselected clauses, compact clause names (group.@case), programs beyond the "
          "line/nesting/depth bounds (small-scope hypothesis).",
+    families="forms: literal conditions rewritten with ==, !=, <, >, <=, >=, &&, ||, ~ (true and false instance each); "
+             "chain: two parsers DIP(env) from one parsed environment, every pair of small block programs; "
+             "source: $source + import inside clauses x remote documents that themselves contain blocks",
     technique="bounded exhaustive program enumeration vs reference interpreter + explicit-state search on the real parser",
 )
